@@ -85,7 +85,7 @@ fn execute(specs: &[Spec], solos: &[Vec<String>], sched: &[u8]) -> Option<Value>
     let specs2: Vec<Spec> = specs.to_vec();
     let sched2: Vec<u8> = sched.to_vec();
     let r = catch(move || {
-        let mut actors: Vec<Actor> = specs2.iter().map(Actor::new).collect();
+        let mut actors: Vec<Actor> = Actor::new_group(&specs2);
         let mut pos = vec![0usize; actors.len()];
         let mut obs: Vec<(u8, String)> = vec![];
         for &a in &sched2 {
@@ -139,6 +139,119 @@ fn perms(n: usize) -> Vec<Vec<usize>> {
     out
 }
 
+/// the actors of a hand-off group: new(), into_iter() and the first two next() calls of each evaluator
+fn handoff_specs(gname: &str) -> Vec<Spec> {
+    groups().iter().find(|g| g.0 == gname).unwrap().1.iter().map(|s| match s {
+        Spec::Eval { cfg, scope, .. } => Spec::Abandon { cfg: cfg.clone(), scope: (scope.0, scope.1, scope.2, scope.3.min(scope.1 + 2)), take: 2 },
+        o => o.clone(),
+    }).collect()
+}
+
+/// one interleaving under every assignment of its operations to two fresh OS threads
+fn handoff_schedule(specs: &[Spec], solos: &[Vec<String>], sched: &[u8], n_assign: usize) -> (Vec<(usize, Value)>, u64) {
+    use std::sync::mpsc;
+    type Job = (usize, ForceSend<Actor>);
+        let mut bad: Vec<(usize, Value)> = vec![];
+        let mut n = 0u64;
+        for assign in 0..n_assign {
+            n += 1;
+            // two fresh worker threads per execution
+            let mut txs = vec![];
+            let (back_tx, back_rx) = mpsc::channel::<(usize, Option<ForceSend<Actor>>, String)>();
+            let mut handles = vec![];
+            for _w in 0..2 {
+                let (tx, rx) = mpsc::channel::<Job>();
+                let back = back_tx.clone();
+                txs.push(tx);
+                handles.push(std::thread::spawn(move || {
+                    while let Ok((ai, actor)) = rx.recv() {
+                        let mut actor = actor.0;
+                        let r = catch(std::panic::AssertUnwindSafe(|| {
+                            let o = actor.step();
+                            (ForceSend(actor), o)
+                        }));
+                        match r {
+                            Ok((actor, o)) => {
+                                let _ = back.send((ai, Some(actor), o));
+                            }
+                            Err(e) => {
+                                let _ = back.send((ai, None, format!("PANIC: {}", e)));
+                            }
+                        }
+                    }
+                }));
+            }
+            let mut actors: Vec<Option<Actor>> = Actor::new_group(specs).into_iter().map(Some).collect();
+            let mut pos = vec![0usize; specs.len()];
+            let mut failure: Option<Value> = None;
+            for (step, &a) in sched.iter().enumerate() {
+                let a = a as usize;
+                let w = (assign >> step) & 1;
+                let actor = match actors[a].take() {
+                    Some(x) => x,
+                    None => break,
+                };
+                if txs[w].send((a, ForceSend(actor))).is_err() {
+                    failure = Some(json!({"step": step, "problem": "worker thread died"}));
+                    break;
+                }
+                match back_rx.recv() {
+                    Ok((ai, actor, o)) => {
+                        actors[ai] = actor.map(|x| x.0);
+                        let k = pos[ai];
+                        if solos[ai].get(k) != Some(&o) {
+                            failure = Some(json!({"step": step, "actor": ai, "actor_operation": k, "ran_on_thread": w, "observed": o, "alone": solos[ai].get(k)}));
+                            break;
+                        }
+                        pos[ai] += 1;
+                    }
+                    Err(_) => {
+                        failure = Some(json!({"step": step, "problem": "worker thread died"}));
+                        break;
+                    }
+                }
+            }
+            // dropping the remaining actors on the main thread, then the workers
+            drop(actors);
+            drop(txs);
+            for h in handles {
+                let _ = h.join();
+            }
+            if let Some(f) = failure {
+                if bad.len() < 2 {
+                    bad.push((assign, f));
+                }
+            }
+        }
+        (bad, n)
+}
+
+/// child mode: the schedules k, k + chunks, k + 2 chunks, ... of one group. Thread creation in a process that already
+/// has sixteen busy worker threads is dominated by address-space locking and TLB shoot-downs; a child process with
+/// three threads does the same work several times faster
+pub fn handoff_child(gname: &str, k: usize, chunks: usize) -> i32 {
+    let specs = handoff_specs(gname);
+    let solos: Vec<Vec<String>> = specs.iter().map(solo_safe).collect();
+    let lens: Vec<usize> = solos.iter().map(|s| s.len()).collect();
+    let total_ops: usize = lens.iter().sum();
+    let mut scheds: Vec<Vec<u8>> = vec![];
+    enumerate(&lens, &[], None, &mut |s: &[u8]| scheds.push(s.to_vec()));
+    let mut n = 0u64;
+    let mut bad_all: Vec<Value> = vec![];
+    for (si, sched) in scheds.iter().enumerate() {
+        if si % chunks != k {
+            continue;
+        }
+        let (bad, m) = handoff_schedule(&specs, &solos, sched, 1usize << total_ops);
+        n += m;
+        for (assign, f) in bad {
+            bad_all.push(json!({"schedule": sched, "assign": assign, "failure": f}));
+        }
+    }
+    println!("{}", json!({"executions": n, "bad": bad_all, "lens": lens, "interleavings": scheds.len()}));
+    0
+}
+
 /// child mode: run the actors of one group alone, one after the other in the given order, in
 /// this fresh process, and print what each observed
 pub fn child(gi: usize, pi: usize) -> i32 {
@@ -163,7 +276,7 @@ fn model_check(spec: &Spec, observed: &[String]) -> Option<String> {
         let expected: usize = model[from..to].iter().map(|b| b.len()).sum();
         let sds = observed.iter().filter(|o| o.contains(" | ")).count();
         let nones = observed.iter().filter(|o| *o == "None").count();
-        if observed.first().map(|s| s.as_str()) != Some("built") || sds != expected || nones != 1 + extra || observed.len() != 1 + expected + 1 + extra {
+        if observed.first().map(|s| s.as_str()) != Some("new") || observed.get(1).map(|s| s.as_str()) != Some("iterating") || sds != expected || nones != 1 + extra || observed.len() != 2 + expected + 1 + extra {
             return Some(format!("alone the actor yields {} showdowns and {} None; its own flop, ranges and scope determine {} showdowns then None forever", sds, nones, expected));
         }
         // each showdown must lie in the window and hold combos of the actor's own ranges
@@ -377,117 +490,49 @@ pub fn run(tier: &str) -> i32 {
     // main thread waits for each one), so the execution is deterministic; what varies is WHICH thread runs a
     // call - values are moved between threads mid-way in every possible pattern. shuttle cannot see this: its
     // "threads" share one OS thread, so state kept in a std thread_local! looks shared to every task.
+    // The work is spread over 16 child processes per group (see handoff_child).
     {
-        use std::sync::mpsc;
-        type Job = (usize, ForceSend<Actor>);
-        let gs = groups();
+        let exe = std::env::current_exe().expect("current_exe");
         let mut total_exec = 0u64;
-        for gname in ["identical", "near-flops", "other-flop-same-ranges"] {
-            let specs: Vec<Spec> = gs.iter().find(|g| g.0 == gname).unwrap().1.iter().map(|s| match s {
-                Spec::Eval { cfg, scope, .. } => Spec::Eval { cfg: cfg.clone(), scope: (scope.0, scope.1, scope.2, scope.3.min(scope.1 + 2)), extra: 0 },
-                o => o.clone(),
-            }).collect();
-            let solos: Vec<Vec<String>> = specs.iter().map(solo_safe).collect();
-            let lens: Vec<usize> = solos.iter().map(|s| s.len()).collect();
-            let total_ops: usize = lens.iter().sum();
-            if total_ops > 10 {
-                continue;
-            }
-            let mut scheds: Vec<Vec<u8>> = vec![];
-            enumerate(&lens, &[], None, &mut |s: &[u8]| scheds.push(s.to_vec()));
-            let n_assign = 1usize << total_ops;
-            let outs = par_map(scheds.len(), |si| {
-                let sched = &scheds[si];
-                let mut bad: Vec<(usize, Value)> = vec![];
-                let mut n = 0u64;
-                for assign in 0..n_assign {
-                    n += 1;
-                    // two fresh worker threads per execution
-                    let mut txs = vec![];
-                    let (back_tx, back_rx) = mpsc::channel::<(usize, Option<ForceSend<Actor>>, String)>();
-                    let mut handles = vec![];
-                    for _w in 0..2 {
-                        let (tx, rx) = mpsc::channel::<Job>();
-                        let back = back_tx.clone();
-                        txs.push(tx);
-                        handles.push(std::thread::spawn(move || {
-                            while let Ok((ai, actor)) = rx.recv() {
-                                let mut actor = actor.0;
-                                let r = catch(std::panic::AssertUnwindSafe(|| {
-                                    let o = actor.step();
-                                    (ForceSend(actor), o)
-                                }));
-                                match r {
-                                    Ok((actor, o)) => {
-                                        let _ = back.send((ai, Some(actor), o));
-                                    }
-                                    Err(e) => {
-                                        let _ = back.send((ai, None, format!("PANIC: {}", e)));
-                                    }
-                                }
-                            }
-                        }));
+        for gname in ["identical", "near-flops", "other-flop-same-ranges", "shared-ranges-other-flops"] {
+            let chunks = 16usize;
+            let outs = par_map(chunks, |k| {
+                let o = std::process::Command::new(&exe).arg("C15-handoff").arg(gname).arg(k.to_string()).arg(chunks.to_string()).env("RUST_BACKTRACE", "0").output();
+                match o {
+                    Ok(o) => {
+                        let text = String::from_utf8_lossy(&o.stdout).to_string();
+                        text.lines().rev().find(|l| l.starts_with('{')).and_then(|l| serde_json::from_str::<Value>(l).ok()).unwrap_or(json!({"child_failed": format!("{:?}", o.status)}))
                     }
-                    let mut actors: Vec<Option<Actor>> = specs.iter().map(|s| Some(Actor::new(s))).collect();
-                    let mut pos = vec![0usize; specs.len()];
-                    let mut failure: Option<Value> = None;
-                    for (step, &a) in sched.iter().enumerate() {
-                        let a = a as usize;
-                        let w = (assign >> step) & 1;
-                        let actor = match actors[a].take() {
-                            Some(x) => x,
-                            None => break,
-                        };
-                        if txs[w].send((a, ForceSend(actor))).is_err() {
-                            failure = Some(json!({"step": step, "problem": "worker thread died"}));
-                            break;
-                        }
-                        match back_rx.recv() {
-                            Ok((ai, actor, o)) => {
-                                actors[ai] = actor.map(|x| x.0);
-                                let k = pos[ai];
-                                if solos[ai].get(k) != Some(&o) {
-                                    failure = Some(json!({"step": step, "actor": ai, "actor_operation": k, "ran_on_thread": w, "observed": o, "alone": solos[ai].get(k)}));
-                                    break;
-                                }
-                                pos[ai] += 1;
-                            }
-                            Err(_) => {
-                                failure = Some(json!({"step": step, "problem": "worker thread died"}));
-                                break;
-                            }
-                        }
-                    }
-                    // dropping the remaining actors on the main thread, then the workers
-                    drop(actors);
-                    drop(txs);
-                    for h in handles {
-                        let _ = h.join();
-                    }
-                    if let Some(f) = failure {
-                        if bad.len() < 2 {
-                            bad.push((assign, f));
-                        }
-                    }
+                    Err(e) => json!({"child_failed": e.to_string()}),
                 }
-                (bad, n)
             });
             let mut n = 0u64;
-            for (si, (bad, k)) in outs.into_iter().enumerate() {
-                n += k;
-                for (assign, f) in bad {
+            let mut lens = json!(null);
+            let mut inter = 0u64;
+            for o in outs {
+                if o.get("child_failed").is_some() {
+                    rep.violation(Violation { key: format!("group={} hand-off child process", gname), sub: "thread-handoffs".into(), case: json!({"group": gname}), expected: json!("the child process runs its schedules and reports"), observed: o });
+                    continue;
+                }
+                n += o["executions"].as_u64().unwrap_or(0);
+                lens = o["lens"].clone();
+                inter = o["interleavings"].as_u64().unwrap_or(0);
+                let total_ops: usize = lens.as_array().map(|a| a.iter().map(|x| x.as_u64().unwrap_or(0) as usize).sum()).unwrap_or(0);
+                for b in o["bad"].as_array().cloned().unwrap_or_default() {
+                    let assign = b["assign"].as_u64().unwrap_or(0);
                     let threads: String = (0..total_ops).map(|i| if (assign >> i) & 1 == 1 { 'B' } else { 'A' }).collect();
+                    let sched: Vec<u64> = b["schedule"].as_array().map(|a| a.iter().map(|x| x.as_u64().unwrap_or(0)).collect()).unwrap_or_default();
                     rep.violation(Violation {
-                        key: format!("group={} schedule={} threads={}", gname, scheds[si].iter().map(|x| x.to_string()).collect::<String>(), threads),
+                        key: format!("group={} schedule={} threads={}", gname, sched.iter().map(|x| x.to_string()).collect::<String>(), threads),
                         sub: "thread-handoffs".into(),
-                        case: json!({"group": gname, "schedule": scheds[si], "threads": threads}),
+                        case: json!({"group": gname, "schedule": sched, "threads": threads}),
                         expected: json!("each actor observes its solo sequence whichever OS thread runs each of its calls"),
-                        observed: f,
+                        observed: b["failure"].clone(),
                     });
                 }
             }
             total_exec += n;
-            rep.sub(&format!("thread-handoffs/{}", gname), &format!("real OS threads: actors with {:?} operations; every interleaving x every assignment of each operation to one of two fresh OS threads (2^{}), calls strictly sequential; each observation compared with the solo sequence", lens, total_ops), n, n, true, json!({"interleavings": scheds.len(), "thread_assignments": n_assign}));
+            rep.sub(&format!("thread-handoffs/{}", gname), &format!("real OS threads: actors with {} operations (new, into_iter, two next() calls each); every interleaving x every assignment of each operation to one of two fresh OS threads, calls strictly sequential; each observation compared with the solo sequence", lens), n, n, true, json!({"interleavings": inter}));
         }
         rep.machine(total_exec, total_exec, total_exec);
     }
